@@ -5,19 +5,32 @@
    key or value); everything the generator adds goes through quote_value (add/set/prepend) or quote_words (Exec lines), whose
    results never contain a control character, under literal keys and section names. *)
 From QV Require Import Model.Base Generated.Tables Model.Quote Model.Unquote Model.Split Model.PortRange Model.Unit Model.Lex Model.Parser
-  Model.Path Model.Names Model.Convert Model.Process Proofs.Util Proofs.C01 Proofs.C03 Proofs.C06 Proofs.C07 Proofs.C07run.
+  Model.Path Model.Names Model.Convert Model.Process Spec.Layout Proofs.Util Proofs.C01 Proofs.C03 Proofs.C06 Proofs.C07 Proofs.C07run.
 Open Scope N_scope.
 Local Notation L := s2l (only parsing).
 
 Definition NN (s : str) : Prop := ~ In cNL s.
-Definition NNe (e : entry) : Prop := NN (fst e) /\ NN (snd e).
-Definition NoNL (u : unit) : Prop := Forall (fun s : str * entries => NN (fst s) /\ Forall NNe (snd s)) u.
+(* section names: as Spec/Layout.v name_ok;  keys: key characters only (possibly none: "=v" is a legal line) *)
+Definition NNn (n : str) : Prop := n <> [] /\ ~ In cRB n /\ NN n.
+Definition keyc (k : str) : Prop := forallb is_key_char k = true.
+Definition NNk (k : str) : Prop := keyc k /\ NN k.
+Definition NNe (e : entry) : Prop := NNk (fst e) /\ NN (snd e).
+Definition NoNL (u : unit) : Prop := NoDup (map fst u) /\ Forall (fun s : str * entries => NNn (fst s) /\ Forall NNe (snd s)) u.
 
-Lemma NoNL_is u : NoNL u <-> no_nl_unit u.
-Proof. unfold NoNL, no_nl_unit, NNe, NN. reflexivity. Qed.
+Lemma NoNL_no_nl u : NoNL u -> no_nl_unit u.
+Proof.
+  intros [_ H]. unfold no_nl_unit. revert H. apply Forall_impl. intros [n es] [(_ & _ & Hn) He]. split; [exact Hn|].
+  revert He. apply Forall_impl. intros [k v] [[_ Hk] Hv]. split; assumption.
+Qed.
 
 (* literal names *)
-Ltac nnl := let X := fresh in intros X; vm_compute in X; repeat (destruct X as [X|X]; [discriminate X|]); exact X.
+Ltac nn0 := let X := fresh in intros X; vm_compute in X; repeat (destruct X as [X|X]; [discriminate X|]); exact X.
+Ltac nnl := lazymatch goal with
+  | |- NNn _ => (split; [discriminate|split; nn0])
+  | |- NNk _ => (split; [vm_compute; reflexivity|nn0])
+  | |- NN _ => nn0
+  | |- ~ In _ _ => nn0
+  end.
 
 Lemma NN_app a b : NN a -> NN b -> NN (a ++ b).
 Proof. intros Ha Hb X. apply in_app_or in X. destruct X; [apply Ha|apply Hb]; assumption. Qed.
@@ -49,56 +62,66 @@ Proof.
 Qed.
 
 (* ---- the unit operations ---- *)
-Lemma NoNL_add_entry u sec k raw : NN sec -> NN k -> NN raw -> NoNL u -> NoNL (add_entry u sec k raw).
+Lemma NoNL_nil : NoNL [].
+Proof. split; constructor. Qed.
+
+Lemma F_add_entry (P : str -> Prop) (Q : entry -> Prop) u sec k raw : P sec -> Q (k, raw) ->
+  Forall (fun s : str * entries => P (fst s) /\ Forall Q (snd s)) u -> Forall (fun s : str * entries => P (fst s) /\ Forall Q (snd s)) (add_entry u sec k raw).
 Proof.
-  intros Hs Hk Hr Hu. induction Hu as [|[n es] r [Hn Hes] Hr' IH]; cbn [add_entry].
-  - constructor; [|constructor]. cbn [fst snd]. split; [exact Hs|]. constructor; [split; assumption|constructor].
+  intros Hs He Hu. induction Hu as [|[n es] r [Hn Hes] Hr' IH]; cbn [add_entry].
+  - constructor; [|constructor]. cbn [fst snd]. split; [exact Hs|]. constructor; [exact He|constructor].
   - destruct (str_eqb sec n).
-    + constructor; [|exact Hr']. cbn [fst snd] in *. split; [exact Hn|]. apply Forall_app. split; [exact Hes|]. constructor; [split; assumption|constructor].
+    + constructor; [|exact Hr']. cbn [fst snd] in *. split; [exact Hn|]. apply Forall_app. split; [exact Hes|]. constructor; [exact He|constructor].
     + constructor; [split; assumption|exact IH].
 Qed.
 
-Lemma NoNL_ensure u n : NN n -> NoNL u -> NoNL (ensure_section u n).
+Lemma NoNL_add_entry u sec k raw : NNn sec -> NNk k -> NN raw -> NoNL u -> NoNL (add_entry u sec k raw).
+Proof. intros Hs Hk Hr [Hd Hu]. split; [apply nodup_add_entry; exact Hd|]. apply F_add_entry; [exact Hs|split; assumption|exact Hu]. Qed.
+
+Lemma NoNL_ensure u n : NNn n -> NoNL u -> NoNL (ensure_section u n).
 Proof.
-  intros Hn Hu. induction Hu as [|[m es] r Hs Hr IH]; cbn [ensure_section].
+  intros Hn [Hd Hu]. split; [apply nodup_ensure_section; exact Hd|]. clear Hd. induction Hu as [|[m es] r Hs Hr IH]; cbn [ensure_section].
   - constructor; [split; [exact Hn|constructor]|constructor].
   - destruct (str_eqb n m); constructor; assumption.
 Qed.
 
 Lemma NoNL_remove u sec : NoNL u -> NoNL (remove_section u sec).
-Proof. intros H. induction H as [|[n es] r Hs Hr IH]; cbn [remove_section]; [constructor|]. destruct (str_eqb sec n); [exact Hr|constructor; assumption]. Qed.
+Proof.
+  intros [Hd H]. split; [apply nodup_remove; exact Hd|]. clear Hd.
+  induction H as [|[n es] r Hs Hr IH]; cbn [remove_section]; [constructor|]. destruct (str_eqb sec n); [exact Hr|constructor; assumption].
+Qed.
 
 Lemma NoNL_section u sec : NoNL u -> Forall NNe (section_entries u sec).
 Proof.
-  intros Hu. unfold section_entries. induction Hu as [|[n es] r [Hn Hs] Hr IH]; cbn [assoc_str]; [constructor|].
+  intros [_ Hu]. unfold section_entries. induction Hu as [|[n es] r [Hn Hs] Hr IH]; cbn [assoc_str]; [constructor|].
   destruct (str_eqb sec n); [exact Hs|exact IH].
 Qed.
 
-Lemma NoNL_add_entries es : forall u sec, NN sec -> NoNL u -> Forall NNe es -> NoNL (add_entries u sec es).
+Lemma NoNL_add_entries es : forall u sec, NNn sec -> NoNL u -> Forall NNe es -> NoNL (add_entries u sec es).
 Proof.
   unfold add_entries. induction es as [|[k v] es IH]; intros u sec Hs Hu He; [exact Hu|].
   inversion He as [|? ? [H1 H1'] H2]; subst. cbn [fold_left fst snd] in *. apply IH; [exact Hs| |exact H2].
   apply NoNL_add_entry; assumption.
 Qed.
 
-Lemma NoNL_merge_from d : forall u, NoNL u -> NoNL d -> NoNL (merge_from u d).
+Lemma NoNL_merge_from d : forall u, NoNL u -> Forall (fun s : str * entries => NNn (fst s) /\ Forall NNe (snd s)) d -> NoNL (merge_from u d).
 Proof.
   unfold merge_from. induction d as [|[n es] d IH]; intros u Hu Hd; [exact Hu|].
   inversion Hd as [|? ? [H1 H1'] H2]; subst. cbn [fold_left fst snd] in *. apply IH; [|exact H2]. apply NoNL_add_entries; assumption.
 Qed.
 
-Lemma NoNL_rename u from to : NN to -> NoNL u -> NoNL (rename_section u from to).
+Lemma NoNL_rename u from to : NNn to -> NoNL u -> NoNL (rename_section u from to).
 Proof.
   intros Ht H. unfold rename_section. destruct (has_section u from); [|exact H].
   apply NoNL_add_entries; [exact Ht|apply NoNL_remove; exact H|apply NoNL_section; exact H].
 Qed.
 
-Lemma NoNL_unit_add u sec k v : NN sec -> NN k -> NoNL u -> NoNL (unit_add u sec k v).
+Lemma NoNL_unit_add u sec k v : NNn sec -> NNk k -> NoNL u -> NoNL (unit_add u sec k v).
 Proof. intros Hs Hk H. apply NoNL_add_entry; [exact Hs|exact Hk|apply quote_value_nn|exact H]. Qed.
 
-Lemma NoNL_prepend u sec k v : NN sec -> NN k -> NoNL u -> NoNL (unit_prepend u sec k v).
+Lemma NoNL_prepend u sec k v : NNn sec -> NNk k -> NoNL u -> NoNL (unit_prepend u sec k v).
 Proof.
-  intros Hs Hk H. unfold unit_prepend. apply Forall_app. split; [apply NoNL_remove; exact H|]. constructor; [|constructor]. cbn [fst snd].
+  intros Hs Hk H. split; [apply nodup_prepend; exact (proj1 H)|]. unfold unit_prepend. apply Forall_app. split; [exact (proj2 (NoNL_remove _ _ H))|]. constructor; [|constructor]. cbn [fst snd].
   split; [exact Hs|]. constructor; [split; [exact Hk|apply quote_value_nn]|apply NoNL_section; exact H].
 Qed.
 
@@ -107,9 +130,13 @@ Proof. induction 1 as [|x l Hx Hl IH]; [constructor|]. cbn [removelast]. destruc
 Lemma Forall_filter' {A} (P : A -> Prop) f l : Forall P l -> Forall P (filter f l).
 Proof. induction 1 as [|x l Hx Hl IH]; [constructor|]. cbn [filter]. destruct (f x); [constructor; assumption|exact IH]. Qed.
 
-Lemma NoNL_set_entry u sec k raw : NN sec -> NN k -> NN raw -> NoNL u -> NoNL (set_entry u sec k raw).
+Lemma names_set_entry u sec k raw : map fst (set_entry u sec k raw) = map fst (add_entry u sec k raw).
+Proof. induction u as [|[n es] r IH]; cbn [set_entry add_entry map fst]; [reflexivity|]. destruct (str_eqb sec n); cbn [map fst]; [reflexivity|]. rewrite IH. reflexivity. Qed.
+
+Lemma NoNL_set_entry u sec k raw : NNn sec -> NNk k -> NN raw -> NoNL u -> NoNL (set_entry u sec k raw).
 Proof.
-  intros Hs Hk Hr Hu. induction Hu as [|[n es] r [Hn Hes] Hr' IH]; cbn [set_entry].
+  intros Hs Hk Hr [Hd Hu]. split; [rewrite names_set_entry; apply nodup_add_entry; exact Hd|]. clear Hd.
+  induction Hu as [|[n es] r [Hn Hes] Hr' IH]; cbn [set_entry].
   - constructor; [|constructor]. cbn [fst snd]. split; [exact Hs|]. constructor; [split; assumption|constructor].
   - destruct (str_eqb sec n).
     + constructor; [|exact Hr']. cbn [fst snd] in *. split; [exact Hn|]. unfold set_in.
@@ -118,16 +145,16 @@ Proof.
     + constructor; [split; assumption|exact IH].
 Qed.
 
-Lemma NoNL_unit_set u sec k v : NN sec -> NN k -> NoNL u -> NoNL (unit_set u sec k v).
+Lemma NoNL_unit_set u sec k v : NNn sec -> NNk k -> NoNL u -> NoNL (unit_set u sec k v).
 Proof. intros Hs Hk H. apply NoNL_set_entry; [exact Hs|exact Hk|apply quote_value_nn|exact H]. Qed.
 
-Lemma NoNL_add_raw_exec svc k args svc' : NN k -> NoNL svc -> add_raw_exec svc k args = COk svc' -> NoNL svc'.
+Lemma NoNL_add_raw_exec svc k args svc' : NNk k -> NoNL svc -> add_raw_exec svc k args = COk svc' -> NoNL svc'.
 Proof.
   intros Hk H. unfold add_raw_exec, unit_add_raw. destruct (unquote_value (quote_words args)); [|discriminate].
   intros X. injection X as <-. apply NoNL_add_entry; [nnl|exact Hk|apply quote_words_nn|exact H].
 Qed.
 
-(* ---- the parser never lets a newline into a name, key or value ---- *)
+(* ---- the parser never lets a newline into a name, key or value; names are non-empty without ']'; keys are key characters ---- *)
 Lemma trim_start_sub s x : In x (trim_start s) -> In x s.
 Proof. induction s as [|c s IH]; [intros []|]. cbn [trim_start]. destruct (is_unicode_ws c); [intros H; right; apply IH; exact H|intros H; exact H]. Qed.
 Lemma trim_end_nn s : NN s -> NN (trim_end s).
@@ -152,54 +179,66 @@ Proof.
   - destruct (c =? cNL); injection H as _ _ <-; exact Ha.
 Qed.
 
+(* a header name being read: no ']' and no newline so far *)
+Definition hdr (n : str) : Prop := ~ In cRB n /\ NN n.
+
 (* strings carried by a parser state *)
 Definition st_nn (st : pstate) : Prop :=
   match st with
   | PTop | PCommentTop => True
-  | PHeader name => NN name
-  | PBody sec | PCommentBody sec => NN sec
-  | PKey sec key | PAfterKey sec key | PAfterEq sec key => NN sec /\ NN key
-  | PValue sec key _ _ acc => NN sec /\ NN key /\ NN acc
+  | PHeader name => hdr name
+  | PBody sec | PCommentBody sec => NNn sec
+  | PKey sec key | PAfterKey sec key | PAfterEq sec key => NNn sec /\ NNk key
+  | PValue sec key _ _ acc => NNn sec /\ NNk key /\ NN acc
   end.
 
 Lemma key_char_not_nl c : is_key_char c = true -> c <> cNL.
 Proof. intros H ->. vm_compute in H. discriminate H. Qed.
 
-Lemma finish_nn u sec key acc u' : NN sec -> NN key -> NN acc -> NoNL u -> finish_entry u sec key acc = Some u' -> NoNL u'.
+Lemma keyc_snoc k c : keyc k -> is_key_char c = true -> keyc (k ++ [c]).
+Proof. unfold keyc. intros Hk Hc. rewrite forallb_app, Hk. cbn [forallb]. rewrite Hc. reflexivity. Qed.
+
+Lemma NNk_nil : NNk [].  Proof. split; [reflexivity|intros []]. Qed.
+
+Lemma finish_nn u sec key acc u' : NNn sec -> NNk key -> NN acc -> NoNL u -> finish_entry u sec key acc = Some u' -> NoNL u'.
 Proof.
   intros Hs Hk Ha Hu. unfold finish_entry, unit_add_raw. destruct (unquote_value (trim_end acc)); [|discriminate].
   intros X. injection X as <-. apply NoNL_add_entry; [exact Hs|exact Hk|apply trim_end_nn; exact Ha|exact Hu].
 Qed.
 
-Lemma body_step_nn sec u c st' u' : NN sec -> body_step sec u c = Some (st', u') -> st_nn st' /\ u' = u.
+Lemma body_step_nn sec u c st' u' : NNn sec -> body_step sec u c = Some (st', u') -> st_nn st' /\ u' = u.
 Proof.
   intros Hs. unfold body_step. intros H.
   destruct (is_comment_start c); [injection H as <- <-; split; [exact Hs|reflexivity]|].
-  destruct (c =? cLB); [injection H as <- <-; split; [intros []|reflexivity]|].
+  destruct (c =? cLB); [injection H as <- <-; split; [split; intros []|reflexivity]|].
   destruct (is_ascii_whitespace c); [injection H as <- <-; split; [exact Hs|reflexivity]|].
   destruct (key_stop c).
-  - destruct (c =? cEQ); [|discriminate]. injection H as <- <-. split; [split; [exact Hs|intros []]|reflexivity].
-  - destruct (is_key_char c) eqn:Ek; [|discriminate]. injection H as <- <-. split; [|reflexivity]. split; [exact Hs|].
-    intros [X|[]]. exact (key_char_not_nl c Ek X).
+  - destruct (c =? cEQ); [|discriminate]. injection H as <- <-. split; [split; [exact Hs|exact NNk_nil]|reflexivity].
+  - destruct (is_key_char c) eqn:Ek; [|discriminate]. injection H as <- <-. split; [|reflexivity]. split; [exact Hs|]. split.
+    + unfold keyc. cbn [forallb]. rewrite Ek. reflexivity.
+    + intros [X|[]]. exact (key_char_not_nl c Ek X).
 Qed.
 
 Lemma pstep_nn st u c st' u' : pstep st u c = Some (st', u') -> st_nn st -> NoNL u -> st_nn st' /\ NoNL u'.
 Proof.
   intros H Hst Hu. destruct st as [| |name|sec|sec|sec key|sec key|sec key|sec key m ign acc]; cbn [pstep st_nn] in *.
   - destruct (is_comment_start c); [injection H as <- <-; split; [exact I|exact Hu]|].
-    destruct (c =? cLB); [injection H as <- <-; split; [intros []|exact Hu]|].
+    destruct (c =? cLB); [injection H as <- <-; split; [split; intros []|exact Hu]|].
     destruct (is_ascii_whitespace c); [|discriminate]. injection H as <- <-. split; [exact I|exact Hu].
   - destruct (c =? cNL); injection H as <- <-; split; try exact I; exact Hu.
-  - destruct (c =? cRB).
-    + destruct name as [|n0 name]; [discriminate|]. injection H as <- <-. split; [exact Hst|apply NoNL_ensure; assumption].
-    + destruct (N.eqb_spec c cNL); [discriminate|]. injection H as <- <-. split; [apply NN_snoc; assumption|exact Hu].
+  - destruct Hst as [Hrb Hnl]. destruct (N.eqb_spec c cRB) as [->|Hc].
+    + destruct name as [|n0 name]; [discriminate|]. injection H as <- <-.
+      assert (Hn : NNn (n0 :: name)) by (split; [discriminate|split; assumption]). split; [exact Hn|apply NoNL_ensure; assumption].
+    + destruct (N.eqb_spec c cNL); [discriminate|]. injection H as <- <-. split; [|exact Hu]. split; [|apply NN_snoc; assumption].
+      intros X. apply in_app_or in X. destruct X as [X|[X|[]]]; [exact (Hrb X)|exact (Hc X)].
   - destruct (body_step_nn _ _ _ _ _ Hst H) as [H1 ->]. split; assumption.
   - destruct (c =? cNL); injection H as <- <-; split; assumption.
-  - destruct Hst as [Hs Hk]. destruct (key_stop c).
-    + destruct (is_blank c); [injection H as <- <-; split; [split; assumption|exact Hu]|].
-      destruct (c =? cEQ); [|discriminate]. injection H as <- <-. split; [split; assumption|exact Hu].
-    + destruct (is_key_char c) eqn:Ek; [|discriminate]. injection H as <- <-. split; [|exact Hu]. split; [exact Hs|].
-      apply NN_snoc; [exact Hk|exact (key_char_not_nl c Ek)].
+  - destruct Hst as [Hs [Hk Hkn]]. destruct (key_stop c).
+    + destruct (is_blank c); [injection H as <- <-; split; [split; [exact Hs|split; assumption]|exact Hu]|].
+      destruct (c =? cEQ); [|discriminate]. injection H as <- <-. split; [split; [exact Hs|split; assumption]|exact Hu].
+    + destruct (is_key_char c) eqn:Ek; [|discriminate]. injection H as <- <-. split; [|exact Hu]. split; [exact Hs|]. split.
+      * apply keyc_snoc; assumption.
+      * apply NN_snoc; [exact Hkn|exact (key_char_not_nl c Ek)].
   - destruct (is_blank c); [injection H as <- <-; split; assumption|]. destruct (c =? cEQ); [|discriminate]. injection H as <- <-. split; assumption.
   - destruct Hst as [Hs Hk]. destruct (is_blank c); [injection H as <- <-; split; [split; assumption|exact Hu]|]. unfold value_start in H.
     destruct (value_step VNormal O [] c) as [[[m' i'] a']|] eqn:Ev.
@@ -223,7 +262,7 @@ Proof.
 Qed.
 
 Theorem parsed_units_have_no_newline text u : parse_unit text = Some u -> NoNL u.
-Proof. intros H. exact (prun_nn text PTop [] u H I (Forall_nil _)). Qed.
+Proof. intros H. exact (prun_nn text PTop [] u H I NoNL_nil). Qed.
 
 (* ---- handlers ---- *)
 Ltac nn :=
@@ -240,8 +279,8 @@ Ltac nn :=
 Lemma NoNL_default_dependencies svc : NoNL svc -> NoNL (default_dependencies svc).
 Proof. intros H. unfold default_dependencies. nn. Qed.
 
-Lemma type_section_nn t : NN (type_section t).  Proof. destruct t; nnl. Qed.
-Lemma type_xsection_nn t : NN (type_xsection t).  Proof. destruct t; nnl. Qed.
+Lemma type_section_nn t : NNn (type_section t).  Proof. destruct t; nnl. Qed.
+Lemma type_xsection_nn t : NNn (type_xsection t).  Proof. destruct t; nnl. Qed.
 
 Lemma NoNL_rename_own svc t : NoNL svc -> NoNL (rename_own svc t).
 Proof. intros H. unfold rename_own. apply NoNL_rename; [nnl|]. apply NoNL_rename; [apply type_xsection_nn|exact H]. Qed.
@@ -333,7 +372,7 @@ Proof.
   intros H Hs; injection H as _ <-; exact Hs.
 Qed.
 
-Lemma NoNL_set_if_absent svc k v s' : NN k -> set_if_absent svc k v = COk s' -> NoNL svc -> NoNL s'.
+Lemma NoNL_set_if_absent svc k v s' : NNk k -> set_if_absent svc k v = COk s' -> NoNL svc -> NoNL s'.
 Proof.
   intros Hk. unfold set_if_absent. bel. intros o _ X Hs. injection X as <-. destruct o; [exact Hs|]. apply NoNL_unit_set; [nnl|exact Hk|exact Hs].
 Qed.
@@ -358,7 +397,7 @@ Proof.
   unfold prologue. destruct (file_name path); [|discriminate]. destruct (tbl_get tbl l); [|discriminate]. cbv zeta.
   bel. intros ? _. bel. intros ? _. bel. intros ? _. bel. intros ? _. intros H. injection H as _ <-.
   assert (V0 : NoNL (default_dependencies (merge_from [] u))).
-  { apply NoNL_default_dependencies. apply NoNL_merge_from; [constructor|exact Hu]. }
+  { apply NoNL_default_dependencies. apply NoNL_merge_from; [exact NoNL_nil|exact (proj2 Hu)]. }
   destruct path; [exact V0|]. nn.
 Qed.
 
@@ -490,7 +529,7 @@ Proof.
   eapply NoNL_one_shot; [exact H7|]. eapply NoNL_add_raw_exec; [| |exact H6]; [nnl|]. eapply NoNL_hswd; [exact H5|]. eapply NoNL_volumes; [exact H4|].
   eapply NoNL_networks; [exact H3|]. apply NoNL_rename_own.
   assert (Vd : NoNL (unit_add (default_dependencies (merge_from [] u)) SEC_U (L "RequiresMountsFor") (L "%t/containers"))).
-  { apply NoNL_unit_add; [nnl|nnl|]. apply NoNL_default_dependencies. apply NoNL_merge_from; [constructor|exact Hu]. }
+  { apply NoNL_unit_add; [nnl|nnl|]. apply NoNL_default_dependencies. apply NoNL_merge_from; [exact NoNL_nil|exact (proj2 Hu)]. }
   destruct path; [exact Vd|]. nn.
 Qed.
 
@@ -540,4 +579,26 @@ Qed.
 Corollary run_services_line_count podman exists_path kill_fixed mount_nl files p svc sp :
   In (p, ROk svc sp) (snd (process_files podman exists_path kill_fixed mount_nl files)) ->
   count_nl (to_string svc) = (fold_right (fun s n => 2 + length (snd s) + n) 0 svc)%nat.
-Proof. intros H. apply line_count. apply NoNL_is. eapply run_services_have_no_newline. exact H. Qed.
+Proof. intros H. apply line_count. apply NoNL_no_nl. eapply run_services_have_no_newline. exact H. Qed.
+
+(* ---- reading a generated service back ---- *)
+(* what is left to a value: it is validated (C11) and has no blank at either edge (the known class BlankAtValueEdge); and keys are not empty *)
+Definition value_ok_edges (v : str) : Prop :=
+  unquote_value v <> None /\ (match v with c :: _ => is_blank_c c = false | [] => True end) /\ trim_end v = v.
+Definition EntriesOk (u : unit) : Prop := Forall (fun s : str * entries => Forall (fun e : entry => fst e <> [] /\ value_ok_edges (snd e)) (snd s)) u.
+
+Lemma shaped_wf u : NoNL u -> EntriesOk u -> WF_unit u.
+Proof.
+  intros [Hd Hs] He. split; [exact Hd|]. clear Hd. induction Hs as [|[n es] r [Hn Hes] Hr IH]; [constructor|].
+  inversion He as [|? ? He1 He2]; subst. constructor; [|apply IH; exact He2]. split; [exact Hn|]. cbn [snd] in *.
+  clear -Hes He1. induction Hes as [|[k v] es [[Hk Hkn] Hv] Hes IH]; [constructor|].
+  inversion He1 as [|? ? [Hne Hvo] He2]; subst. constructor; [|apply IH; exact He2]. cbn [fst snd] in *.
+  split; [|split; [exact Hvo|exact Hv]]. split; [exact Hne|]. apply Forall_forall. intros c Hc. unfold keyc in Hk. rewrite forallb_forall in Hk. exact (Hk c Hc).
+Qed.
+
+(* every service of the run whose entries have non-empty keys and validated values without a blank at an edge is read back, from the text
+   the generator writes, as exactly itself: same sections, same entries, same order *)
+Theorem run_services_read_back podman exists_path kill_fixed mount_nl files p svc sp :
+  In (p, ROk svc sp) (snd (process_files podman exists_path kill_fixed mount_nl files)) ->
+  EntriesOk svc -> parse_unit (to_string svc) = Some svc.
+Proof. intros H He. apply roundtrip. apply shaped_wf; [eapply run_services_have_no_newline; exact H|exact He]. Qed.
